@@ -193,10 +193,10 @@ def _dom4(chk):
     chk.analysed(f)
     cfg = f.cfg()
     calls = [(n, c) for n, c in cfg.calls_named("callback") if isinstance(c.func, ast.Attribute)]
-    chk.require(calls, "C02: handler call vanished from _run_handlers_sequential")
+    chk.need(calls, "DOM-4", "the queue runner calls each handler", f)
     hn, hc = calls[0]
     loops = [h for h in cfg.nodes if h.kind == "loop"]
-    chk.require(loops, "C02: handler loop vanished from _run_handlers_sequential")
+    chk.need(loops, "DOM-4", "the queue runner loops over the handlers", f)
     head = loops[0]
     # a queue event is never aborted: every registered handler whose condition holds runs -- no `break` / `return` inside the handler
     # loop (a handler's return value means nothing for queue events; `False` aborts only boolean events)
@@ -257,12 +257,12 @@ def _dom5(chk):
     chk.analysed(f, g)
     cfg = f.cfg()
     loops = [h for h in cfg.nodes if h.kind == "loop"]
-    chk.require(loops, "C02: handler loop vanished from _run_handlers")
+    chk.need(loops, "DOM-5", "_run_handlers loops over the handlers", f)
     head = loops[0]
     # result variable comes from the handler call
     res_defs = [n for n in cfg.nodes_where(lambda n: n.kind == "stmt" and isinstance(n.ast, ast.Assign) and
                                            isinstance(n.ast.value, ast.Call) and call_attr(n.ast.value) == "callback")]
-    chk.require(res_defs, "C02: `result = handler.callback(...)` vanished")
+    chk.need(res_defs, "DOM-5", "_run_handlers keeps each handler's result", f)
     rv = src(res_defs[0].ast.targets[0])
     # relay update
     ups = [(n, c) for n, c in cfg.calls_named("update") if dotted(c.func.value) == "kwargs"]
